@@ -103,6 +103,9 @@ def add_allocs(d, rng, heavy=True):
         # release-only traffic: the threads free blocks that the main thread allocated before the run and allocate
         # nothing themselves (draining a pre-filled pool), inside the calls, the generator or the drops
         d.update({"caops": "", "gan": 0, "dan": 0, "can": 0, "stash": 4096, "stashw": rng.choice([0, 0, 1, 2]), "stashsz": rng.choice([64, 1000])})
+    elif rng.random() < 0.12:
+        # nothing but reallocations to the same size, of blocks older than the run (one per thread): operations that move no byte
+        d.update({"caops": "", "gan": 0, "dan": 0, "can": 0, "stash": 64, "stashw": 0, "stashe": 1, "stashsz": rng.choice([64, 1000])})
     return d
 
 
